@@ -757,6 +757,8 @@ func main() {
 	}())
 	c.Assume("the declared major ranges are read from the era packages' Min/MaxProtocolVersion constants (the property names them as the authority); block-type / era-id / era-name / layout table is the harness's own (Cardano HFC numbering)")
 	c.Assume("verif/space CBOR writer produces the headers; header layouts follow the Shelley and Babbage CDDL")
+	// free-running -race pass: concurrent callers on their own inputs (state the library shares between calls)
+	c.RaceAudit("c36")
 	c.Finish()
 }
 
